@@ -21,6 +21,10 @@ RULE = ("parameter types: or-trees of depth 0..3 with %field annotations at ever
         "default/root name. Distinct = distinct (type, leaf path).")
 
 LEAF_TYPES = [rv.T("int"), rv.T("nat"), rv.T("string"), rv.T("unit"), rv.T("pair", rv.T("int"), rv.T("nat"))]
+# the sampled tier also uses leaves whose values can be "nothing" (None, empty, False) or lazy (big_map literals)
+RICH_LEAVES = LEAF_TYPES + [rv.T("option", rv.T("key_hash")), rv.T("option", rv.T("nat")), rv.T("big_map", rv.T("string"), rv.T("bytes")),
+                            rv.T("list", rv.T("nat")), rv.T("bool"), rv.T("bytes"), rv.T("map", rv.T("nat"), rv.T("string")),
+                            rv.T("pair", rv.T("big_map", rv.T("nat"), rv.T("nat")), rv.T("option", rv.T("string")))]
 
 
 def _ts(t):
@@ -51,6 +55,19 @@ def _sample_value(t, k):
         return (_sample_value(rv.targs(t)[0], k), _sample_value(rv.targs(t)[1], k))
     if p == "or":
         return ("Left", _sample_value(rv.targs(t)[0], k))
+    a = rv.targs(t)
+    if p == "option":
+        return None if k % 2 == 0 else ("Some", _sample_value(a[0], k))
+    if p == "key_hash":
+        return bytes([k % 3]) + bytes([k] * 20)
+    if p in ("big_map", "map"):
+        return [] if k % 2 == 0 else [(_sample_value(a[0], k), _sample_value(a[1], k))]
+    if p == "list":
+        return [] if k % 2 == 0 else [_sample_value(a[0], k)]
+    if p == "bool":
+        return k % 2 == 1
+    if p == "bytes":
+        return b"" if k % 2 == 0 else bytes([k])
     raise ValueError(p)
 
 
@@ -137,6 +154,15 @@ def oracle(case):
             if again != want:
                 raise Violation("(%s, %s) -> %s -> %s -> %s (parameter %s)" % (n, arg, full, params, again, _ts(at)), case,
                                 "entrypoint-roundtrip")
+            # the pair itself comes back when no more specific entrypoint lies on the path of the value (when one does, naming
+            # it instead is an equally valid answer and is not constrained here)
+            node, deeper = (at if n == root else entries[n][1]), False
+            for step in lp:
+                node = node["args"][int(step)]
+                deeper = deeper or re_.field(node) is not None
+            if not deeper and params != {"entrypoint": n, "value": arg}:
+                raise Violation("(%s, %s) -> %s -> %s: the pair does not come back although `%s` is the most specific entrypoint on "
+                                "the value's path (parameter %s)" % (n, arg, full, params, n, _ts(at)), case, "pair-roundtrip")
     return "ok"
 
 
@@ -162,14 +188,18 @@ def nodes(shape, path=""):
     return [path] + nodes(shape[0], path + "0") + nodes(shape[1], path + "1")
 
 
-def build(shape, names, path="", leaf_i=[0], tnames=None):
+def build(shape, names, path="", leaf_i=[0], tnames=None, leaves=None):
     ann = ["%" + names[path]] if names.get(path) is not None else []   # "" gives the bare annotation `%` (= no name)
     if tnames and tnames.get(path):
         ann.append(":" + tnames[path])
     if shape is None:
-        t = dict(LEAF_TYPES[sum(map(int, path or "0")) % len(LEAF_TYPES)])
+        if leaves:
+            t = dict(leaves[int("1" + path, 2) % len(leaves)])
+        else:
+            t = dict(LEAF_TYPES[sum(map(int, path or "0")) % len(LEAF_TYPES)])
     else:
-        t = {"prim": "or", "args": [build(shape[0], names, path + "0", tnames=tnames), build(shape[1], names, path + "1", tnames=tnames)]}
+        t = {"prim": "or", "args": [build(shape[0], names, path + "0", tnames=tnames, leaves=leaves),
+                                    build(shape[1], names, path + "1", tnames=tnames, leaves=leaves)]}
     if ann:
         t["annots"] = ann
     return t
@@ -201,7 +231,8 @@ def sampled(draw):
             names[p] = draw(st.sampled_from(pool + ["", ""]))
         if draw(st.integers(0, 5)) == 0:  # :type annotations never matter for entrypoints
             tnames[p] = draw(st.sampled_from(["action", "t", "a"]))
-    return {"t": build(shape, names, tnames=tnames), "k": draw(st.integers(0, 5))}
+    leaves = draw(st.lists(st.sampled_from(RICH_LEAVES), min_size=3, max_size=8)) if draw(st.booleans()) else None
+    return {"t": build(shape, names, tnames=tnames, leaves=leaves), "k": draw(st.integers(0, 5))}
 
 
 def _prop(case, stats):
